@@ -54,6 +54,7 @@ class Config:
         self.div_all_modules: Set[str] = set()  # modules where every non-constant divisor is an obligation
         self.inline_depth = 4
         self.assert_scope: Optional[Set[str]] = None  # function qualnames whose asserts are obligations (None = all analysed)
+        self.assert_untainted = False  # True: asserts over local state are obligations too (control-dependent on the datagram)
         self.detached_calls = True  # ensure_future(f()) does not propagate exceptions to the caller
         self.ext_raises: Dict[str, List[str]] = {}  # dotted external callable -> exception names
         self.exempt_asserts: Set[Tuple[str, str]] = set()  # (func qualname, normalised construct)
